@@ -274,8 +274,8 @@ func init() {
 		ID: "C01",
 		Explanation: "Decides structural necessary conditions of 'generated parsers accept exactly the language' across table writers (lalr/) and readers (the five committed generated parsers and js's hand-written parse loop): CODEC(parser): every read of the packed table is guarded by 0 <= pos < tmTableLen, -2-action is used as a state only for action < -1, rule tables are indexed only with action >= 0. SIBLING(gotoState): the generated default-encoding gotoState has the same comparisons, index arithmetic and returns as lalr.(*DefaultEnc).gotoState. ENTRY: the i-th exported Parse* starts in state i with a final state that is not an entry state. " +
 			"GUARD(markerfree): RuleLen counts only non-marker symbols. CODEC(optimize), GUARD(usedBase), GUARD(dedupe), GUARD(entry), FIELDCOV(minimize), MUSTPASS(compile-order), MUSTPASS(nonassoc-rewrite): the writers keep the encodings consistent. FRESH(lookahead): every read of p.next in each parse() is dominated by a definition made in the same call (no stale lookahead on a reused Parser). RESET(histogram): reused counter slices of Optimize/pickDefault are zeroed per state. PERITEM(flag): boolean fields of per-item records (Input.NoEoi, ...) are not carried around the loop that builds them. " +
-			"Not decided: correctness of the LR(0)/LALR construction and of the shift/reduce loop as algorithms; the error-location clause. TYPESTATE(lookahead): positions of p.next are read only while a lookahead is fetched. DTX(lr0-shift): a state with a reduction that gains a shift consults the lookahead. GUARD(final): minimize keeps final states apart from ordinary states. DTX(assocmap)/LOCKSTEP(precGroup)/GUARD(optimize-la) run as part of the shared precedence and compile-order rules (see C04, C05).",
-		Rules: []string{"CODEC(parser)", "SIBLING(gotoState)", "DTX(lr0-shift)", "ENTRY", "GUARD(markerfree)", "CODEC(optimize)", "GUARD(usedBase)", "GUARD(dedupe)", "GUARD(entry)", "GUARD(final)", "FIELDCOV(minimize)", "MUSTPASS(compile-order)", "MUSTPASS(nonassoc-rewrite)", "FRESH(lookahead)", "TYPESTATE(lookahead)", "RESET(histogram)", "PERITEM(flag)", "DTX(assocmap)", "GUARD(optimize-la)", "LOCKSTEP(precGroup)"},
+			"Not decided: correctness of the LR(0)/LALR construction and of the shift/reduce loop as algorithms; the error-location clause. TYPESTATE(lookahead): positions of p.next are read only while a lookahead is fetched. DTX(lr0-shift): a state with a reduction that gains a shift consults the lookahead. GUARD(final): minimize keeps final states apart from ordinary states. DTX(assocmap)/LOCKSTEP(precGroup)/GUARD(optimize-la) run as part of the shared precedence and compile-order rules (see C04, C05). GUARD(dedicated-accept): the state that receives the end-of-input shift is created for its input, or is a goto target that no other state has a transition into (an input nonterminal reachable from itself must not end the parse in an inner context).",
+		Rules: []string{"CODEC(parser)", "SIBLING(gotoState)", "DTX(lr0-shift)", "ENTRY", "GUARD(markerfree)", "CODEC(optimize)", "GUARD(usedBase)", "GUARD(dedupe)", "GUARD(entry)", "GUARD(final)", "FIELDCOV(minimize)", "MUSTPASS(compile-order)", "MUSTPASS(nonassoc-rewrite)", "FRESH(lookahead)", "TYPESTATE(lookahead)", "RESET(histogram)", "PERITEM(flag)", "DTX(assocmap)", "GUARD(optimize-la)", "LOCKSTEP(precGroup)", "GUARD(dedicated-accept)"},
 		Run: func(c *Ctx) {
 			ruleTABLEIDX(c)
 			ruleGOTOSIBLING(c)
@@ -292,6 +292,7 @@ func init() {
 			rulePRECPLUMBING(c)
 			ruleFRESH(c)
 			rulePEEK(c)
+			ruleACCEPTSTATE(c)
 			ruleRESET(c, "lalr")
 			rulePERITEM(c, "compiler", "syntax", "lalr", "grammar")
 		},
